@@ -472,7 +472,8 @@ impl Engine for C06 {
                 Some(err) => {
                     // a program that catches errors may catch the injected one: what its handler
                     // then computes (e.g. the length of the message) is right, and not predictable
-                    let catches = src.contains("io.catch");
+                    // (never the VM's own "cannot unwind" error: that one is the recorded finding)
+                    let catches = src.contains("io.catch") && !actual.contains("Attempted to exit scope above current");
                     if catches && actual != expected && actual != format!("ERR {}", err) {
                         run::count("outcome_unchecked_injected_error_caught_by_the_program", 1);
                     }
